@@ -22,7 +22,7 @@ def main(tier):
         trace = os.path.join(wd, "trace.ndjson")
         args = ["c12", "-seed", str(run.seed), "-out", trace, "-cases", ",".join(files)]
         if run.thorough:
-            args += ["-maxsilent", "2", "-silentsample", "700", "-workers", "160"]
+            args += ["-maxsilent", "2", "-silentsample", "2400", "-workers", "240"]
         else:
             args += ["-maxsilent", "1", "-silentsample", "60"]
         vlib.run_harness(args, timeout=3400)
